@@ -30,7 +30,9 @@ func lbWorld(lb LoadBalancing, name string, loops int) *world {
 		loopIdx int
 		thread  int
 	}
-	var order []int // loop index of each connection in accept order
+	var order []int      // loop index of each connection in accept order
+	var remotes []string // its remote address string
+	regLoop, regWant := -1, -1
 	seenLoop := map[Conn]obs{}
 	counts := func() []int {
 		out := make([]int, loops)
@@ -59,6 +61,11 @@ func lbWorld(lb LoadBalancing, name string, loops int) *world {
 	w.onOpen = func(w *world, ci *connInfo) ([]byte, Action) {
 		track(ci, "OnOpen")
 		order = append(order, ci.c.EventLoop().(*eventloop).idx)
+		ra := ""
+		if a := ci.c.RemoteAddr(); a != nil {
+			ra = a.String()
+		}
+		remotes = append(remotes, ra)
 		return nil, None
 	}
 	w.onTraffic = func(w *world, ci *connInfo) Action { track(ci, "OnTraffic"); return echoTraffic(w, ci) }
@@ -105,6 +112,19 @@ func lbWorld(lb LoadBalancing, name string, loops int) *world {
 			}
 			open()
 			open()
+			if lb == SourceAddrHash {
+				// Engine.Register of a dialled connection: it must be served by the loop its REMOTE address hashes to
+				if nc, err := net.Dial("unix", sockPath()); err == nil {
+					hl := w.eng.eng.eventLoops.(*sourceAddrHashLoadBalancer)
+					regWant = hl.next(nc.RemoteAddr()).idx
+					if ch, err := w.eng.Register(NewNetConnContext(context.Background(), nc)); err == nil {
+						if res, ok, _ := recvRes(w, ch); ok && res.Conn != nil {
+							regLoop = res.Conn.EventLoop().(*eventloop).idx
+							_ = res.Conn.Close()
+						}
+					}
+				}
+			}
 			for _, p := range ps[1:] {
 				p.close()
 			}
@@ -130,10 +150,15 @@ func lbWorld(lb LoadBalancing, name string, loops int) *world {
 					}
 				}
 			case SourceAddrHash:
-				if l != order[0] {
-					return fmt.Sprintf("source-addr-hash: connections from the same remote address went to loops %v", order), "lb:hash"
+				for j := 0; j < i; j++ {
+					if remotes[j] == remotes[i] && order[j] != l {
+						return fmt.Sprintf("source-addr-hash: connections from the same remote address %q went to loops %d and %d", remotes[i], order[j], l), "lb:hash"
+					}
 				}
 			}
+		}
+		if lb == SourceAddrHash && regLoop >= 0 && regLoop != regWant {
+			return fmt.Sprintf("source-addr-hash: a connection registered through Engine.Register is served by loop %d, its remote address hashes to loop %d", regLoop, regWant), "lb:register-hash"
 		}
 		if len(order) < 5 && w.runDone {
 			return fmt.Sprintf("only %d of 5 connections were opened", len(order)), "lb:harness"
